@@ -11,7 +11,7 @@ CHECKS = {
          "property-based testing (Hypothesis histories + enumerated suite x version x EtM triples), FIFO model + reference receiver oracle",
          "Two real TLSConnection endpoints complete a pinned handshake for every negotiable (suite, version, EtM) triple; a generated history of writes, reads and "
          "record-size changes is compared with a FIFO model, and every record on the wire is re-opened by an independent reference receiver (vlib/refs) that also "
-         "checks the per-record plaintext length against the limit in force (user recordSize, RFC 8449 negotiated limit, TLS 1.3 padding).",
+         "checks the per-record plaintext length against the limit in force (user recordSize, RFC 8449 negotiated limit, TLS 1.3 padding); histories may end with the writer closing while data is undelivered and the reader asking for more than is left.",
          "in-memory transport; reference ciphers/KDFs validated against OpenSSL CLI and RFC vectors; two dead suites (0x40, 0x6A) cannot be negotiated at all and are outside the domain",
          "DESIGN.md §4 C01"),
  "C02": ("fault_enumeration",
@@ -19,7 +19,8 @@ CHECKS = {
          "For every (suite, version, EtM) triple the honest sender's records are captured and one attacker transformation is applied (bit flips at header/IV/body/tag positions, truncation, "
          "extension, splice, replay, swap, drop-then-continue, reflection, cross-connection, forged plaintext alert/CCS, unknown content type, empty record); the receiver must return exactly the "
          "data of the honest prefix and reject the first deviating record with a fatal alert seen by the peer, closed and non-resumable. A directly keyed RecordLayer is also fed by the reference "
-         "sender: every legal padding/inner padding is accepted bit-exactly, insider malformations (good MAC bad padding, zero-only TLS 1.3 inner plaintext, wrong outer type, overflow) raise the documented exceptions.",
+         "sender: every legal padding/inner padding is accepted bit-exactly, insider malformations (good MAC bad padding, bit flip behind maximal padding, correct MAC over a ciphertext too short for IV/padding/MAC, SSLv3 padding beyond one block, zero-only TLS 1.3 inner plaintext, wrong outer type, overflow) raise the documented exceptions. "
+         "During the handshake an unprotected alert/handshake/data record is spliced in at every position of the protected flight and must never be acted upon.",
          "in-memory transport; incomplete trailing records are 'blocked' (C17); reference sender validated in C09 self-test",
          "DESIGN.md §4 C02"),
  "C03": ("exploration",
@@ -40,19 +41,20 @@ CHECKS = {
          "fault enumeration site x corruption through a well-keyed deviant peer (real endpoint, wrapped send methods, substituted keys, re-signed proofs) with positive controls",
          "Every proof-of-possession site (ServerKeyExchange signature for RSA/ECDSA/EdDSA/DSA in TLS 1.0-1.2, client CertificateVerify, TLS 1.3 server/client CertificateVerify, post-handshake authentication, Finished, SRP proof, external PSK binder, Checker) "
          "is combined with each corruption (bit flip, proof by another key of the same type, proof replayed from another handshake, valid proof re-signed with a scheme the verifier did not offer, garbage, wrong password / unknown user / A mod N = 0, wrong PSK, flipped or re-attributed binder, wrong fingerprint); "
+         "degenerate signature values (DSA/ECDSA (1,0),(0,1),(q,.); RSA 0,1,n-1,n; zero EdDSA), an SRP attacker using the premaster that A = 0 mod N forces, a wrong Finished closing an otherwise valid post-handshake authentication, and a client identity carried in a declined ticket followed by a handshake without certificate; "
          "the verifier must fail with an alert and never complete with the identity attributed. Positive controls (honest run; valid re-signed proof with an offered scheme) make the negatives non-vacuous.",
          "omitted proof messages are C06; the deviant uses tlslite helper functions only as a signing/encoding convenience",
          "DESIGN.md §4 C05"),
  "C06": ("fault_enumeration",
          "fault enumeration over message traces: every single skip/duplicate/swap/insert/replace deviation of 12 honest handshake flavours replayed by a well-keyed deviant peer, judged by an independent order-legality model; drawn deviation pairs",
-         "For each (flavour, deviant side) the honest trace (handshake messages + ChangeCipherSpec) is replayed with one deviation - all positions x {skip, duplicate, swap} and x {insert, replace} with a 13-message pool - the deviant's transcript "
+         "For each (flavour, deviant side) the honest trace (handshake messages + ChangeCipherSpec) is replayed with one deviation - all positions x {skip, duplicate, swap} and x {insert, replace} with a 14-message pool (incl. a zero-length application-data record), plus append(T) after completion - the deviant's transcript "
          "following what it really sends (so Finished would verify if the victim swallowed the deviation). A type-level legality model classifies the sequence the honest endpoint receives; illegal or truncated handshake parts must never complete, "
          "late illegal messages must kill the connection on the next read; post-handshake ClientHello/HelloRequest/ServerHello/Finished/CCS must never start a second handshake; handshake calls on an open connection must raise ValueError.",
          "order only: content validity of same-typed replacements is C04/C05; stalls count as not completed",
          "DESIGN.md §4 C06"),
  "C07": ("exploration",
          "differential interoperability testing against OpenSSL (stdlib ssl on memory BIOs) over an enumerated (role, version, suite, key) matrix plus Hypothesis-drawn options",
-         "For every (tlslite role, TLS 1.0-1.3, suite in tlslite ∩ OpenSSL, server key type) and drawn options (group, client authentication, ALPN lists, resumption, payload sizes) the configuration is first shown to work tlslite<->tlslite and OpenSSL<->OpenSSL; "
+         "For every (tlslite role, TLS 1.0-1.3, suite in tlslite ∩ OpenSSL, server key type) and drawn options (group, client authentication, ALPN lists, resumption, HelloRetryRequest, OpenSSL default padded hello, payload sizes) the configuration is first shown to work OpenSSL<->OpenSSL (a tlslite<->tlslite failure of a matrix entry is a violation); "
          "then tlslite-client<->OpenSSL-server and OpenSSL-client<->tlslite-server must complete, report the same version, cipher suite, ALPN protocol and session reuse, authenticate the client when asked, and carry multi-record payloads intact in both directions; a second connection attempts resumption.",
          "OpenSSL randomness not seedable (configuration is the replay unit); SSLv3, SRP, external PSK, KeyUpdate, record_size_limit, heartbeat, anon and TLS 1.3 CCM suites are outside what the stdlib API reaches",
          "DESIGN.md §4 C07"),
@@ -95,7 +97,7 @@ CHECKS = {
          "model-based stateful property testing: generated operation histories interpreted against real endpoints and a reference eligibility model",
          "Histories of full handshakes (TLS 1.0/1.2/1.3; session cache and/or ticket keys; EMS/EtM/SNI/client-certificate options), closes (clean, fatal, abrupt, lost close_notify), clock movements on either side, ticket-key rotations, cache fills, ticket/id tampering (bit flip, truncation, garbage, foreign server, random id) "
          "and resume attempts with unchanged or changed offers are run against two real endpoints; 'resumed' is judged from the client flag and from the wire; a three-valued reference model decides eligibility: resumed only if eligible, forged/altered/expired/foreign/unknown never resume and never break the connection (full handshake completes), "
-         "inconsistent offers never resume, resumed connections carry the original suite, EMS, EtM, server name and client identity.",
+         "inconsistent offers never resume, resumed connections carry the original suite, EMS, EtM, server name and client identity, and a full handshake after a declined offer records only the identity presented in it.",
          "boundary ages and RFC-permitted alternatives are 'either'; one open known finding (TLS<=1.2 ticket declined -> client breaks the full handshake) is excluded by construction and counted",
          "DESIGN.md §4 C13"),
  "C14": ("exploration",
@@ -124,7 +126,7 @@ CHECKS = {
          "fault enumeration by stream offset on scripted sockets (EOF / ECONNRESET / EPIPE at every record boundary and header/body split of every flight, both endpoints, both directions) plus enumerated closure events in the data phase",
          "For 12 handshake flavours a fault-free run records both byte streams; the scripted socket then delivers/accepts exactly up to offset o and faults, for o over every record boundary, +1..+5, middle and last byte of every record x fault kind x endpoint x direction. "
          "The interrupted call must raise a socket/abrupt-close error (or the peer's queued alert), the connection be closed, no handshake reported complete, the session absent or non-resumable; the peer may complete only if it held the victim's complete last flight. "
-         "Data phase: close_notify / warning / fatal alert / EOF / EOF inside a record after k data records x closeSocket x ignoreAbruptClose: orderly close gives empty reads, closed-connection error on write and a resumable session; truncation is never a clean end; fatal alerts surface with their description.",
+         "Data phase: close_notify / warning / fatal alert / EOF / EOF inside a record after k data records x closeSocket x ignoreAbruptClose: orderly close gives empty reads, closed-connection error on write and a resumable session; truncation is never a clean end; fatal alerts surface with their description; close() waiting for the peer's close_notify with peer traffic in flight and a courtesy close_notify hitting a dead transport stay orderly.",
          "sendall() is blocking-complete; TLS 1.3 'complete last flight' is located with the reference receiver (first record under application keys)",
          "DESIGN.md §4 C17"),
  "C18": ("exploration",
@@ -145,7 +147,7 @@ CHECKS = {
          "exhaustive enumeration of (suite, version, role) with an IANA-table oracle, reference receiver and reference PRF; MITM rewriting for undefined pairs",
          "Every suite id the library lists x every version is enumerated: defined pairs are negotiated between pinned endpoints and their records re-opened by a reference "
          "receiver keyed with the REGISTERED cipher/key size/MAC/tag/PRF (any mismatch makes authentication fail), Finished is recomputed with the registered PRF, key-exchange "
-         "messages and certificate presence are checked on the wire, accessor names compared with the table; undefined pairs are attacked from both roles and must be refused.",
+         "messages and certificate presence are checked on the wire, accessor names compared with the table (TLS 1.3: also after KeyUpdate in both directions); single cipher/MAC names between all-version endpoints and sessions re-offered to a server capped at a lower version must announce registered pairs; undefined pairs are attacked from both roles and must be refused.",
          "IANA table typed in and cross-checked against openssl ciphers -stdname; 'defined in version' only where RFCs are explicit; premaster secrets not observable",
          "DESIGN.md §4 C20"),
 }
